@@ -183,6 +183,11 @@ fn all_true<VS: HSet>(c: &Clause<VS>, sel: &BTreeMap<String, Option<u32>>) -> bo
     c.iter().all(|(p, t)| term_true(t, sel.get(p).copied().flatten()))
 }
 
+thread_local! {
+    /// entailment checks given up because the selection space exceeds 300 000 (they count as passes)
+    pub static ENTAIL_SKIPPED: std::cell::Cell<u64> = const { std::cell::Cell::new(0) };
+}
+
 /// ∀ selection over `choices(p)`: all terms of `concl` true ⇒ all terms of some premise true
 pub fn entailed<VS: HSet>(concl: &Clause<VS>, premises: &[Clause<VS>], choices: &dyn Fn(&str) -> Vec<Option<u32>>) -> bool {
     let mut pkgs: BTreeSet<String> = concl.iter().map(|(p, _)| p.clone()).collect();
@@ -205,7 +210,9 @@ pub fn entailed<VS: HSet>(concl: &Clause<VS>, premises: &[Clause<VS>], choices: 
         }
         sels = next;
         if sels.len() > 300_000 {
-            return true; // too large to enumerate: not decided (counted by the caller through sizes)
+            // too large to enumerate: not decided; counted, and reported in the statistics
+            ENTAIL_SKIPPED.with(|c| c.set(c.get() + 1));
+            return true;
         }
     }
     sels.iter().all(|s| !all_true(concl, s) || premises.iter().any(|p| all_true(p, s)))
